@@ -344,7 +344,7 @@ def block_sig(world, sid):
     return tuple(len(b.tokens) for b in s._blocks)
 
 
-def run_histories(ctx, nhist, nops, lfs, with_model=True, prefix='C07'):
+def run_histories(ctx, nhist, nops, lfs, with_model=True, prefix='C07', judge=('C07', 'C08')):
     """Generates and runs histories.  Returns nothing; reports through ctx."""
     batches = []  # (replay dict, [(line, expected)])
     for h in range(nhist):
@@ -373,6 +373,7 @@ def run_histories(ctx, nhist, nops, lfs, with_model=True, prefix='C07'):
                      sample={'lf': lf, 'op': op, 'blocks_before': shape0, 'blocks_after': shape1} if ctx.evaluations % 997 == 0 else None)
             if err is None and op['op'] != 'iter':
                 bad = world.oracle(op['sid'], removed) + world.oracle_iter(op['sid'], ctx.rng)
+                bad = [b for b in bad if b[0].split(':')[0] in judge]
                 ql, qe, _, _ = world.apply({'op': 'query', 'sid': op['sid']})
                 lines.append((ql, qe))
                 if bad:
